@@ -151,8 +151,10 @@ func decodeUnicode(s *Stream, p unsafe.Pointer) (unsafe.Pointer, error) {
 	unicodeLen := int64(len(unicode))
 	s.buf = append(append(s.buf[:s.cursor-1], unicode...), s.buf[s.cursor+offset:]...)
 	unicodeOrgLen := offset - 1
-	s.length = s.length - (backSlashAndULen + (unicodeOrgLen - unicodeLen))
+	removed := backSlashAndULen + (unicodeOrgLen - unicodeLen)
+	s.length = s.length - removed
 	s.cursor = s.cursor - backSlashAndULen + unicodeLen
+	s.offset += removed // keep totalOffset counting the bytes of the input
 	return pp, nil
 }
 
@@ -190,6 +192,7 @@ RETRY:
 	s.buf = append(s.buf[:s.cursor-1], s.buf[s.cursor:]...)
 	s.length--
 	s.cursor--
+	s.offset++ // keep totalOffset counting the bytes of the input
 	p = s.bufptr()
 	return p, nil
 }
@@ -240,7 +243,8 @@ func stringBytes(s *Stream) ([]byte, error) {
 			s.buf = append(append(append([]byte{}, s.buf[:cursor]...), runeErrBytes...), s.buf[cursor+1:]...)
 			_, _, p = s.stat()
 			cursor += runeErrBytesLen
-			s.length += runeErrBytesLen
+			s.length += runeErrBytesLen - 1
+			s.offset -= runeErrBytesLen - 1 // one input byte became three
 			continue
 		case nul:
 			s.cursor = cursor
@@ -259,7 +263,7 @@ func stringBytes(s *Stream) ([]byte, error) {
 			fallthrough
 		default:
 			// multi bytes character
-			if !utf8.FullRune(s.buf[cursor : len(s.buf)-1]) {
+			if !utf8.FullRune(s.buf[cursor:s.length]) {
 				s.cursor = cursor
 				if s.read() {
 					_, cursor, p = s.stat()
@@ -271,7 +275,8 @@ func stringBytes(s *Stream) ([]byte, error) {
 			if r == utf8.RuneError {
 				s.buf = append(append(append([]byte{}, s.buf[:cursor]...), runeErrBytes...), s.buf[cursor+1:]...)
 				cursor += runeErrBytesLen
-				s.length += runeErrBytesLen
+				s.length += runeErrBytesLen - 1
+				s.offset -= runeErrBytesLen - 1 // one input byte became three
 				_, _, p = s.stat()
 			} else {
 				cursor += int64(size)
